@@ -457,6 +457,10 @@ def run(ctx):
         if ra is None and rb is None:
             continue  # builtin in both
         programs += 1
+        if ra is not None and rb is not None and ra[0] == rb[0] == "func" and ra[1] is not rb[1] \
+                and ast.dump(_strip(ra[1].node)) == ast.dump(_strip(rb[1].node)):
+            ctx.inst("M7", "%s LightNodeMixin" % lm.module.relpath, name, "identical private helper in both modules")
+            continue
         same = (ra is not None and rb is not None and ra[0] == rb[0] and
                 (ra[1] is rb[1] or (ra[0] in ("module", "ext") and ra[1] == rb[1]) or
                  (ra[0] == "const" and ast.dump(ra[1]) == ast.dump(rb[1]))))
@@ -469,6 +473,12 @@ def run(ctx):
     ctx.extra["programs"] = programs
     ctx.extra["disagreements_checked"] = table_hits + len(ctx.findings)
     ctx.extra["trusted_base"] = ["CPython name mangling", "slot vs dict attribute storage semantics", "python ast module"]
+
+
+def _strip(fnode):
+    n = copy.deepcopy(fnode)
+    n.body = strip_doc(n.body) or [ast.Pass()]
+    return n
 
 
 def _r(r):
